@@ -145,7 +145,7 @@ impl Authorizer {
     {
         let execution_time = self.run()?;
         let mut limits = self.limits.clone();
-        limits.max_iterations -= self.world.iterations;
+        limits.max_iterations = limits.max_iterations.saturating_sub(self.world.iterations);
         if execution_time >= limits.max_time {
             return Err(error::Token::RunLimit(error::RunLimit::Timeout));
         }
@@ -271,7 +271,7 @@ impl Authorizer {
     {
         let execution_time = self.run()?;
         let mut limits = self.limits.clone();
-        limits.max_iterations -= self.world.iterations;
+        limits.max_iterations = limits.max_iterations.saturating_sub(self.world.iterations);
         if execution_time >= limits.max_time {
             return Err(error::Token::RunLimit(error::RunLimit::Timeout));
         }
@@ -365,7 +365,7 @@ impl Authorizer {
     pub fn authorize(&mut self) -> Result<usize, error::Token> {
         let execution_time = self.run()?;
         let mut limits = self.limits.clone();
-        limits.max_iterations -= self.world.iterations;
+        limits.max_iterations = limits.max_iterations.saturating_sub(self.world.iterations);
         if execution_time >= limits.max_time {
             return Err(error::Token::RunLimit(error::RunLimit::Timeout));
         }
